@@ -190,6 +190,21 @@ class SimEs:
     def return_raw_response(self):
         pass
 
+    async def bulk(self, body=None, index=None, doc_type=None, params=None, **kw):
+        """the simulated `_bulk` endpoint (C03, scenario['track'] with real bulk tasks): records what the real bulk runner sends;
+        the running task of the client is known from AsyncExecutor.__call__ (observed in patch_modules)"""
+        import io
+
+        self._h.on_request_start()
+        self.sim.bulk_log.append({"client": self.client_id, "task": self.sim.client_task.get(self.client_id),
+                                  "run": self.sim.client_task_runs.get((self.client_id, self.sim.client_task.get(self.client_id)), 0),
+                                  "body": body, "index": index, "time": self.sim.clock})
+        svc = self.sim.scenario.get("bulk_svc")
+        if svc:
+            await asyncio.sleep(self.sim.rng.choice(svc) if isinstance(svc, list) else svc)
+        self._h.on_request_end()
+        return io.BytesIO(b'{"took": 1, "errors": false}')
+
     async def close(self):
         pass
 
@@ -371,6 +386,8 @@ def patch_modules():
     async def observed_call(self, *a, **k):
         sim = self.es["default"].sim
         sim.note("task-start", client=self.client_id, task=self.task.name)
+        sim.client_task[self.client_id] = self.task.name
+        sim.client_task_runs[(self.client_id, self.task.name)] = sim.client_task_runs.get((self.client_id, self.task.name), 0) + 1
         try:
             return await orig_call(self, *a, **k)
         finally:
@@ -475,8 +492,13 @@ def make_config(scenario):
 
 def make_track(scenario):
     """scenario['schedule'] = [ {leaf: task} | {par: [task...], clients: n|None} ];
-    task = {name, clients, iterations|None, time_period|None, warmup_iterations, eternal, cp, acp, svc}"""
+    task = {name, clients, iterations|None, time_period|None, warmup_iterations, eternal, cp, acp, svc};
+    scenario['track'] (optional, C03) = a ready esrally Track object (default challenge) that may mix `sim` tasks with real
+    operations such as `bulk`; the simulated endpoint then serves `es.bulk` (SimEs.bulk)"""
     from esrally.track import track
+
+    if scenario.get("track") is not None:
+        return scenario["track"]
 
     def mk(t):
         params = {"task": t["name"], "eternal": bool(t.get("eternal")), "weight": t.get("weight", 1)}
@@ -638,6 +660,9 @@ class Sim:
         self.trace = []
         self.notes = []
         self.request_log = []
+        self.bulk_log = []          # C03: every body the real bulk runner sent to the simulated _bulk endpoint
+        self.client_task = {}       # client id -> name of the task its executor currently runs
+        self.client_task_runs = {}  # (client id, task name) -> how often that client has started the task so far
         self.progress_log = []
         self.api_keys_created, self.api_keys_deleted = [], []
         self.outage_from = scenario.get("outage_from")  # virtual time from which the cluster is unreachable (persistent)
@@ -838,7 +863,10 @@ class Sim:
             await adapter.run()
 
         task = loop.create_task(main())
-        self.executors[key] = {"loop": loop, "task": task, "future": fut, "adapter": adapter, "started": self.clock}
+        # the pool thread may take a while to start running the submitted work (scenario['exec_start_delay'] = upper bound)
+        d = self.scenario.get("exec_start_delay", 0.0)
+        not_before = self.clock + (self.rng.choice([0.0, d / 2, d]) if d > 0 else 0.0)
+        self.executors[key] = {"loop": loop, "task": task, "future": fut, "adapter": adapter, "started": self.clock, "not_before": not_before}
         self.out.append((key, ("submit", [(cid, ta.task.name) for cid, ta in adapter.task_allocations])))
         return fut
 
@@ -948,6 +976,8 @@ class Sim:
                 if self.clock - w["due"] >= self.max_wakeup_delay - 1e-12:
                     forced.append(("wakeup", w["seq"]))
         for key, ex in self.executors.items():
+            if ex["not_before"] > self.clock + 1e-12:
+                continue  # the thread has not started yet
             if ex["loop"].has_ready():
                 evs.append(("exec", key))
         nxt = []
@@ -957,6 +987,9 @@ class Sim:
             else:
                 nxt.append(w["due"] + self.max_wakeup_delay)  # latest instant this overdue wake-up may still be postponed to
         for key, ex in self.executors.items():
+            if ex["not_before"] > self.clock + 1e-12:
+                nxt.append(ex["not_before"])
+                continue
             t = ex["loop"].next_timer()
             if t is not None and t > self.clock + 1e-12:
                 nxt.append(t)
